@@ -1,5 +1,96 @@
-(* Props/C10.v — placeholder while the driver is being developed *)
+(* Props/C10.v — property C10: protocol messages survive every wire format unchanged.
+   Only statements, each closed by `exact <lemma>`, with Print Assumptions, and non-vacuity examples.
+
+   Scope.  The Gallina model (Model/Msg.v) and these theorems cover the parameter kinds named by
+   `param_modelled`: str / int / bool scalars and both [str] list kinds (777 of 861 declared
+   parameters), parameters outside the schema and language-tagged keys, for EVERY class of the
+   regenerated table Gen/Schema.v.  JSON text and JWT/JWE are the dict layer under a trusted
+   text / crypto layer (exercised by the driver's oracle).  The remaining 29 kinds (nested Message
+   objects, JSON-text kinds, identity assurance) are pinned in Model/MsgKinds.v and decided by the
+   oracle on the real code only; the known findings form:message, form:message-list, form:dict,
+   form:extra, form:ia-*, json:ia-* live there. *)
 From Coq Require Import String.
-From Verif Require Import Lib.Base Lib.PyStr Lib.MsgSchema Gen.Schema Model.Msg Model.MsgCheck.
-Example C10_placeholder : length all_classes = 108%nat.
-Proof. vm_compute. reflexivity. Qed.
+From Verif Require Import Lib.Base Lib.PyStr Lib.Urlenc Lib.Utf8 Lib.Qs Lib.MsgSchema Gen.Schema
+  Model.Msg Model.MsgKinds Proofs.Qs_proofs Proofs.Msg_proofs Proofs.MsgTable_proofs.
+Open Scope string_scope.
+
+(* ---- the wire text layer: characters with special meaning survive ---- *)
+(* str.encode("utf-8") / decode: every string of Unicode scalar values *)
+Theorem C10_utf8_roundtrip : forall s b, utf8_encode s = Some b -> utf8_decode b = Some s.
+Proof. exact utf8_roundtrip. Qed.
+Print Assumptions C10_utf8_roundtrip.
+
+(* parse_qsl (urlencode l) = l for every list of (name, non-empty value) pairs of encodable strings:
+   space, +, &, =, %, #, quotes, non-ASCII included *)
+Theorem C10_query_string_roundtrip :
+  forall l t, urlencode l = Some t -> forallb (fun kv => nonempty (snd kv)) l = true -> parse_qsl t = Ok l.
+Proof. exact parse_qsl_urlencode. Qed.
+Print Assumptions C10_query_string_roundtrip.
+
+(* ---- the quantification over classes and kinds, recomputed over the regenerated table ---- *)
+(* every declared parameter of every class is of a modelled kind or of a kind pinned as opaque:
+   a new class, value type, (de)serializer or null flag re-opens this obligation *)
+Theorem C10_all_kinds_accounted :
+  forall c p, In c all_classes -> In p (c_params c) -> kind_supported p = true.
+Proof. exact kinds_accounted_all. Qed.
+Print Assumptions C10_all_kinds_accounted.
+
+(* ---- dict (and, under the trusted text layer, JSON / JWT / JWE) ---- *)
+(* For every class of the table and every message of the modelled fragment valid for its schema
+   (valid_msg: each entry a value of its parameter's kind, keys distinct, class defaults present):
+   to_dict succeeds, constructing the class from that dict succeeds, and the result has exactly the
+   entries of the original message - nothing dropped, duplicated, split or altered; parameters
+   outside the schema and language-tagged keys included. *)
+Theorem C10_dict_roundtrip :
+  forall c, In c all_classes -> forall m, valid_msg c m = true ->
+  exists d r, to_dict c m = Ok d /\ construct c d = Ok r /\ same_entries r m.
+Proof. intros c _. exact (dict_roundtrip c). Qed.
+Print Assumptions C10_dict_roundtrip.
+
+(* ---- form encoding ----
+   Full statement (FALSE of the faithful model, known finding F17 `space-in-list-element`):
+     forall c in all_classes, forall m, valid_form c m = true ->
+       exists t r, to_urlencoded c m = Ok t /\ from_urlencoded c t (c_default c) = Ok r /\ form_entries_of r m.
+   Proved with the guard that elements of list_serializer lists contain no space: *)
+Theorem C10_urlencoded_partial :
+  forall c, In c all_classes -> forall m, valid_form c m = true -> list_elems_no_space c m = true ->
+  exists t r, to_urlencoded c m = Ok t /\ from_urlencoded c t (c_default c) = Ok r /\ form_entries_of r m.
+Proof. intros c _. exact (urlencoded_roundtrip c). Qed.
+Print Assumptions C10_urlencoded_partial.
+
+(* ... and the guard is necessary: RegistrationRequest(contacts=["John Doe"]) comes back as
+   ["John", "Doe"] *)
+Theorem C10_urlencoded_refuted :
+  exists c m, In c all_classes /\ valid_form c m = true /\ list_elems_no_space c m = false /\
+    ~ (exists t r, to_urlencoded c m = Ok t /\ from_urlencoded c t (c_default c) = Ok r /\ form_entries_of r m).
+Proof. exact urlencoded_refuted. Qed.
+Print Assumptions C10_urlencoded_refuted.
+
+(* ---- non-vacuity: a concrete oidc.AuthorizationRequest with metacharacters, a language tag, an
+        extra parameter, an int and space-separated lists is valid and round-trips both ways ---- *)
+Definition ex_class : pystr := PS "idpyoidc.message.oidc.AuthorizationRequest".
+Definition ex_msg : msg :=
+  [(PS "response_type", VList [VStr (PS "code"); VStr (PS "id_token")]);
+   (PS "client_id", VStr (PS "c l&i=e%nt#+"));
+   (PS "scope", VList [VStr (PS "openid"); VStr [229; 228; 246]]);
+   (PS "redirect_uri", VStr (PS "https://rp.example/cb?x=1&y=2#frag"));
+   (PS "max_age", VInt 3600);
+   (PS "state#fr", VStr [233; 116; 97; 116; 32; 128512]);
+   (PS "x_extra", VStr (PS "a b+c"))].
+Example C10_nonvacuous :
+  match find_class ex_class all_classes with
+  | Some c =>
+      valid_msg c ex_msg = true /\ valid_form c ex_msg = true /\ list_elems_no_space c ex_msg = true /\
+      (d <- to_dict c ex_msg ;; construct c d) = Ok ex_msg /\
+      match to_urlencoded c ex_msg with
+      | Ok t => match from_urlencoded c t (c_default c) with
+                | Ok r => assoc (PS "max_age") r = Some (VStr (PS "3600"))
+                          /\ assoc (PS "client_id") r = assoc (PS "client_id") ex_msg
+                          /\ assoc (PS "state#fr") r = assoc (PS "state#fr") ex_msg
+                | _ => False
+                end
+      | _ => False
+      end
+  | None => False
+  end.
+Proof. vm_compute. repeat split; reflexivity. Qed.
